@@ -268,19 +268,19 @@ theorem mustReject_not_docMember (b : BoxSp) (v : PyVal) (h : mustRejectBox b v 
     have hsh : b.shape = [] := by simpa [rect] using hr.symm
     exact scalar_reject b _ hv (by simp [leaves]) (by simpa [mustRejectBox, hsh] using h) hd
 
-/-- **the model's `Box.contains` satisfies the judge's specification outside K2** -/
-theorem model_meets_specBox_aux (b : BoxSp) (v : PyVal) (h : k2Exc b v = false) :
+/-- **the model's `Box.contains` satisfies the judge's specification**, for every box and value -/
+theorem model_meets_specBox_aux (b : BoxSp) (v : PyVal) :
     specBox b v (boxContains b v) = true := by
   unfold specBox docBox
   by_cases ha : mustAcceptBox b v = true
   · rw [if_pos ha]
-    have := (boxContains_yes_iff b v h).mpr (mustAccept_docMember b v ha)
+    have := (boxContains_yes_iff b v).mpr (mustAccept_docMember b v ha)
     simp [this]
   · rw [if_neg ha]
     by_cases hr : mustRejectBox b v = true
     · rw [if_pos hr]
       have hn := mustReject_not_docMember b v hr
-      have : boxContains b v ≠ .yes := fun hy => hn ((boxContains_yes_iff b v h).mp hy)
+      have : boxContains b v ≠ .yes := fun hy => hn ((boxContains_yes_iff b v).mp hy)
       simpa using this
     · rw [if_neg hr]
 
